@@ -108,9 +108,19 @@ def gen_case(rng):
     same_chain = rng.random() < 0.4
     feats.add("same-chain" if same_chain else "different-chains")
     start = rng.choice([1, 10, 200])
+    # equivalent cysteines of two chains of a homodimer carry the same residue number
+    same_number = (not same_chain) and len(frags) >= 2 and rng.random() < 0.35
+    cys_index = {0: i1}
+    if len(frags) >= 2:
+        cys_index[1] = i2
+    if same_number:
+        feats.add("same-residue-number")
+    cys_number = start + max(cys_index.values()) if same_number else None
     chains = []
     for k, fi in enumerate(order):
         fr = frags[fi]
+        if same_number and fi in cys_index:
+            start = cys_number - cys_index[fi]
         G.set_chain(fr, "A" if same_chain else "ABC"[k], start)
         start += len(fr) + rng.choice([0, 3, 50])
         if not same_chain:
